@@ -150,6 +150,36 @@ if 'chain' in which:
                     {'helper': kind, 'first_call_raises': 'Permanent() inside `except` handling %s (no `from`)' % name, 'outcome': list(outcome), 'calls': calls, 'required': [['raised', 'Permanent'], 1]},
                 )
 
+if 'classes' in which:
+    # "raise any other error immediately": over the FINITE set of builtin exception classes (errno-less instances), a class that the
+    # real classifiers count as limited-retry and not transient must be one of the two the module documents (connection reset /
+    # refused by the peer); for every other such class the helpers must call the operation exactly once.
+    import builtins  # noqa: E402
+
+    from hailtop.utils import utils as U  # noqa: E402
+
+    res['ran'].append('classes')
+    documented = {'ConnectionResetError', 'ConnectionRefusedError'}
+    for cname in sorted(dir(builtins)):
+        cls = getattr(builtins, cname)
+        if not (isinstance(cls, type) and issubclass(cls, Exception)) or cname in documented:
+            continue
+        try:
+            probe = cls()
+        except Exception:
+            continue
+        if U.is_transient_error(probe) or U.is_rate_limit_error(probe):
+            continue
+        res['classes_probed'] = res.get('classes_probed', 0) + 1
+        for kind, outcome, calls in run_helpers(U, lambda cls=cls: cls()):
+            if kind.startswith('sync'):
+                continue
+            if calls != 1:
+                fail(
+                    'an error that is neither transient, rate-limit nor of a documented limited-retry class is retried',
+                    {'helper': kind, 'every_call_raises': cname + '()', 'is_limited_retries_error': bool(U.is_limited_retries_error(cls())), 'outcome': list(outcome), 'calls': calls, 'required_calls': 1},
+                )
+
 if 'body' in which:
     import aiohttp  # noqa: E402
     import multidict  # noqa: E402
